@@ -21,7 +21,7 @@ parwait
 {
 echo "main $BUILD/c14_main"
 echo "twin $BUILD/c14_twin"
-SEL="vector_tracked_N,vector_int_N2,string_N2,_large,throwing,multiarg,overloaded,move_only"
+SEL="long_history,converting,vector_tracked_N,vector_int_N2,string_N2,_large,throwing,multiarg,overloaded,move_only"
 echo "main_clang_ndebug $BUILD/c14_main_clang --only $SEL"
 echo "twin_clang_ndebug $BUILD/c14_twin_clang --only $SEL"
 } > $BUILD/runs.txt
